@@ -245,3 +245,25 @@ B('c08-percentile-keys', 'C08', STATS, "        results = da.stack(results, keys
 B('c08-percentile-subaxes', 'C08', STATS, "    subaxes = [ax for ax in a.axes if ax.name != nm]", "    subaxes = [ax for ax in a.axes[1:]]", '')
 N('c08-n-rename', 'C08', TRANS, "newaxes", "kept_axes", 'rename', all=True)
 N('c08-n-filter-operands', 'C08', TRANS, "        newaxes = [ax for ax in obj.axes if ax.name != name]", "        newaxes = [a_x for a_x in obj.axes if name != a_x.name]", 'operands swapped + rename')
+
+# ------------------------------------------------------------------------------- C09
+B('c09-recursion-scheme', 'C09', TRANS, "obj = obj.diff(n=n-1, axis=idx, scheme=scheme, keepaxis=keepaxis)", "obj = obj.diff(n=n-1, axis=idx, keepaxis=keepaxis)", 'seeded C09-1')
+B('c09-recursion-keepaxis', 'C09', TRANS, "obj = obj.diff(n=n-1, axis=idx, scheme=scheme, keepaxis=keepaxis)", "obj = obj.diff(n=n-1, axis=idx, scheme=scheme)", '')
+B('c09-recursion-n', 'C09', TRANS, "obj = obj.diff(n=n-1, axis=idx, scheme=scheme, keepaxis=keepaxis)", "obj = obj.diff(n=n-2, axis=idx, scheme=scheme, keepaxis=keepaxis)", 'skips one order')
+B('c09-argmax-setitem', 'C09', TRANS, "        res.values = obj.axes[idx].values[res.values] \n        return res\n\n    # flattened array: tuple of axis values\n    else: # res is ndarray\n        res = np.unravel_index(res, obj.shape)\n        return tuple(obj.axes[i].values[v] for i, v in enumerate(res))\n\n#", "        res.values[:] = obj.axes[idx].values[res.values] \n        return res\n\n    # flattened array: tuple of axis values\n    else: # res is ndarray\n        res = np.unravel_index(res, obj.shape)\n        return tuple(obj.axes[i].values[v] for i, v in enumerate(res))\n\n#", 'seeded C09-2 (argmax only)')
+B('c09-both-setitem', 'C09', TRANS, "        res.values = obj.axes[idx].values[res.values] ", "        res.values[:] = obj.axes[idx].values[res.values] ", 'both twins', all=True)
+B('c09-arg-wrong-axis', 'C09', TRANS, "        res.values = obj.axes[idx].values[res.values] ", "        res.values = obj.axes[0].values[res.values] ", 'labels of axis 0', all=True)
+B('c09-unravel-shape', 'C09', TRANS, "        res = np.unravel_index(res, obj.shape)", "        res = np.unravel_index(res, obj.shape[::-1])", '', all=True)
+B('c09-forward-slice', 'C09', TRANS, "            newaxis = oldaxis[:-1]", "            newaxis = oldaxis[1:]", 'forward drops the first label')
+B('c09-backward-slice', 'C09', TRANS, "            newaxis = oldaxis[1:]\n\n    elif scheme == \"centered\":", "            newaxis = oldaxis[:-1]\n\n    elif scheme == \"centered\":", '')
+B('c09-pad-side', 'C09', TRANS, "            result = _append_nans(result, axis=idx, first=True)", "            result = _append_nans(result, axis=idx)", 'backward keepaxis pads at the end')
+B('c09-pad-axis', 'C09', TRANS, "            result = _append_nans(result, axis=idx)\n            newaxis = oldaxis.copy()\n\n        # otherwise just shorten the axis\n        else:\n            newaxis = oldaxis[:-1]", "            result = _append_nans(result, axis=0)\n            newaxis = oldaxis.copy()\n\n        # otherwise just shorten the axis\n        else:\n            newaxis = oldaxis[:-1]", '')
+B('c09-midpoint-weights', 'C09', TRANS, "axisvalues = 0.5*(oldaxis.values[:-1]+oldaxis.values[1:])", "axisvalues = 0.5*(oldaxis.values[:-1]+oldaxis.values[:-1])", 'not midpoints')
+B('c09-centered-keepaxis', 'C09', TRANS, "            raise ValueError(\"keepaxis=True is not compatible with centered differences\")", "            newaxis = oldaxis.copy()", 'silently wrong shape')
+B('c09-append-order', 'C09', TRANS, "    if first:\n        result = np.concatenate((nan_slice, result), axis=axis)", "    if first:\n        result = np.concatenate((result, nan_slice), axis=axis)", '')
+B('c09-diff-axis', 'C09', TRANS, "    result = np.diff(obj.values, axis=idx)", "    result = np.diff(obj.values, axis=-1)", 'always last axis')
+B('c09-cumsum-default-axis', 'C09', TRANS, "def cumsum(a, axis=-1, skipna=False):", "def cumsum(a, axis=0, skipna=False):", '')
+B('c09-cumprod-name', 'C09', TRANS, "    return apply_along_axis(a, 'cumprod', axis=axis, skipna=skipna)", "    return apply_along_axis(a, 'cumsum', axis=axis, skipna=skipna)", '')
+B('c09-cum-branch', 'C09', TRANS, "        newaxes = obj.axes.copy() \n\n    # diff: reduce axis size by one", "        newaxes = obj.axes[1:] \n\n    # diff: reduce axis size by one", 'cumulative result loses an axis')
+N('c09-n-rename', 'C09', TRANS, "oldaxis", "previous_axis", 'rename', all=True)
+N('c09-n-midpoint-form', 'C09', TRANS, "axisvalues = 0.5*(oldaxis.values[:-1]+oldaxis.values[1:])", "axisvalues = (oldaxis.values[:-1]+oldaxis.values[1:])/2.", 'other spelling of the midpoint')
